@@ -9,6 +9,7 @@ type c20Loader struct {
 	mu      sync.Mutex
 	files   map[string]string
 	fetches map[string]int
+	broken  map[string]bool // names whose reader fails after a leading part of the content
 	outside int // fetches that happened while the engine saw no mutex held
 	nlock   int // own Lock calls (subtracted from the engine's lock-event count)
 }
@@ -26,7 +27,24 @@ func (l *c20Loader) Get(path string) (ioReader, error) {
 	if !ok {
 		return nil, &harnessErr{"not found: " + path}
 	}
+	if l.broken[path] {
+		return &c20BrokenReader{s: s[:len(s)/2]}, nil
+	}
 	return newStringReader(s), nil
+}
+
+// a reader that hands out a leading part of the content and then fails (a file system going away)
+type c20BrokenReader struct {
+	s    string
+	done bool
+}
+
+func (r *c20BrokenReader) Read(p []byte) (int, error) {
+	if r.done || len(r.s) == 0 {
+		return 0, errHarness
+	}
+	r.done = true
+	return copy(p, r.s), nil
 }
 
 // (a) sequential histories over {FromCache(n), CleanCache(), CleanCache(n), toggle Debug,
@@ -67,7 +85,7 @@ func HarnessC20History() {
 			si = verifChoice(nsets)
 		}
 		set, m, l := sets[si], ms[si], ld[si]
-		op := verifChoice(6)
+		op := verifChoice(7)
 		verifObserve("op", op)
 		switch op {
 		case 0: // FromCache(n)
@@ -104,6 +122,24 @@ func HarnessC20History() {
 			n := names[verifChoice(len(names))]
 			version[n+itoa(si)]++
 			l.files[n] = n + itoa(version[n+itoa(si)])
+		case 6: // a load that fails while READING (the loader has the name) is a failed load too: not cached
+			n := pick()
+			if _, cached := m.cache[n]; cached && !m.debug {
+				break // served from the cache without touching the loader
+			}
+			l.broken = map[string]bool{n: true}
+			_, err := set.FromCache(n)
+			verifAssert(err != nil, "a template whose source cannot be read completely must not compile")
+			want[si][n]++
+			l.broken = nil
+			t, err2 := set.FromCache(n)
+			verifAssert(err2 == nil && t != nil, "a load that failed while reading must not be cached")
+			want[si][n]++
+			out, _ := t.Execute(nil)
+			verifAssert(out == n+itoa(version[n+itoa(si)]), "after a failed read the next call must load the complete current content")
+			if !m.debug {
+				m.cache[n] = t
+			}
 		default: // failed loads are not cached
 			_, err := set.FromCache("missing")
 			verifAssert(err != nil, "FromCache of a missing name must fail")
